@@ -10,6 +10,8 @@ package main
 import (
 	"fmt"
 	"math/rand"
+	"os"
+	"runtime"
 	"strings"
 	"sync"
 	"sync/atomic"
@@ -45,8 +47,12 @@ var (
 	evals atomic.Int64
 )
 
+// generous I/O timeouts: a saturated machine must not end sessions (a real deadlock still shows
+// as a drain that never completes)
+const ioTimeout = 60 * time.Second
+
 func (s scenario) clientOpts(name string, slow time.Duration) rig.ClientOpts {
-	o := rig.ClientOpts{Name: name, SlowCallback: slow, HeldEvery: 7}
+	o := rig.ClientOpts{Name: name, SlowCallback: slow, HeldEvery: 7, ReadTimeout: ioTimeout, WriteTimeout: ioTimeout}
 	switch s.Transport {
 	case "udp", "mcast", "tcp":
 		o.Proto = s.Transport
@@ -115,7 +121,7 @@ func runScenario(sc scenario) {
 
 	opts := rig.ServerOpts{
 		UDP: true, Multicast: sc.Transport == "mcast", TLS: sc.TLS, HandlerSet: "full", NoLog: true,
-		OnEvent: tags.onEvent, Desc: desc,
+		OnEvent: tags.onEvent, Desc: desc, ReadTimeout: ioTimeout, WriteTimeout: ioTimeout,
 	}
 	if sc.SmallQ {
 		opts.WriteQueueSize = 8
@@ -202,7 +208,7 @@ func runScenario(sc scenario) {
 	}
 
 	if sc.Topology == "B" {
-		po := rig.ClientOpts{Name: "publisher", Proto: sc.PubProto, Path: "/pub"}
+		po := rig.ClientOpts{Name: "publisher", Proto: sc.PubProto, Path: "/pub", ReadTimeout: ioTimeout, WriteTimeout: ioTimeout}
 		pub, err = rig.StartPublisher(ts, desc, po)
 		if err != nil {
 			ts.Close()
@@ -349,7 +355,41 @@ func runScenario(sc scenario) {
 			rmu.Unlock()
 		}
 	}()
+	var diagStop chan struct{}
+	if os.Getenv("VERIF_C01_DIAG") != "" && ingest != nil {
+		// development aid: dump all goroutines when the ingest makes no progress for 5 s
+		diagStop = make(chan struct{})
+		go func() {
+			last, lastT := ingest.Delivered(), time.Now()
+			var hist []string
+			for {
+				select {
+				case <-diagStop:
+					return
+				case <-time.After(200 * time.Millisecond):
+				}
+				hist = append(hist, fmt.Sprintf("%s ingest=%d", time.Now().Format("15:04:05.000"), ingest.Delivered()))
+				if pub != nil && pub.Died() != nil {
+					buf := make([]byte, 8<<20)
+					buf = buf[:runtime.Stack(buf, true)]
+					_ = os.WriteFile(fmt.Sprintf("/tmp/c01_diag_died_%s_%d.txt", sc.Name, time.Now().UnixNano()), append([]byte(strings.Join(hist, "\n")+"\n\n"), buf...), 0o644)
+					return
+				}
+				if n := ingest.Delivered(); n-last > 20 {
+					last, lastT = n, time.Now()
+				} else if time.Since(lastT) > 3*time.Second {
+					buf := make([]byte, 8<<20)
+					buf = buf[:runtime.Stack(buf, true)]
+					_ = os.WriteFile(fmt.Sprintf("/tmp/c01_diag_%s_%d.txt", sc.Name, time.Now().UnixNano()), buf, 0o644)
+					return
+				}
+			}
+		}()
+	}
 	wwg.Wait()
+	if diagStop != nil {
+		close(diagStop)
+	}
 	<-churnDone
 	for nextReader < sc.Readers { // late joiners that churn did not start
 		readers = append(readers, newReader(nextReader))
@@ -370,7 +410,26 @@ func runScenario(sc scenario) {
 		}
 	}
 	rmu.Unlock()
-	if ingest != nil && ingest.Reliable {
+	pubDied := false
+	if pub != nil {
+		if err := pub.Died(); err != nil {
+			// a publisher whose session ended cannot feed anybody: no drain, tails are free
+			pubDied = true
+			run.Count("publishers-ended-by-error", 1)
+			run.Count("publisher-end-error:"+vlib.Trunc(err.Error(), 80), 1)
+			ingest.WindowClose("died")
+			drainRds = nil
+			tags.mu.Lock()
+			cl := append([]string(nil), tags.closes...)
+			tags.mu.Unlock()
+			if strings.Contains(err.Error(), "timeout") || strings.Contains(err.Error(), "timed out") {
+				run.Inconclusive("publisher-io-timeout")
+			} else {
+				fail("publisher-ended-by-error", fmt.Sprintf("the publishing client's session ended during the load: %v", err), map[string]any{"server_closes": cl})
+			}
+		}
+	}
+	if ingest != nil && ingest.Reliable && !pubDied {
 		// hop 1 is drained through the same sentinels
 		drainRds = append(drainRds, ingest)
 	}
